@@ -101,6 +101,14 @@ func (c *searchCriterion) quickMatch(
 		ip := readJSONValue(line, `"IP":"`)
 		clientID := readJSONValue(line, `"CID":"`)
 
+		if strings.Contains(host, `\`) || strings.Contains(clientID, `\`) {
+			// The values are taken from the line as they are, so characters
+			// escaped by the JSON encoder, such as '&' or '<', don't compare
+			// equal to the ones of the search term.  Let the full match, which
+			// works on the decoded entry, decide.
+			return true
+		}
+
 		var name string
 		if cli := findClient(ctx, logger, clientID, ip); cli != nil {
 			name = cli.Name
